@@ -303,6 +303,13 @@ func checkLogTwins(c *core.Ctx) {
 		trips = 3
 	}
 	checkLoopTwin(c, p, d, "bessel_ik", "bessel_ik_log", trips, nil)
+	ikOpaque := map[string]string{
+		"asymptotic_bessel_i_large_x": "asym_i", "asymptotic_bessel_i_large_x_log": "asym_i",
+		"bessel_i_small_z_series": "small_z", "bessel_i_small_z_series_log": "small_z",
+		"CF1_ik": "cf1", "CF1_ik_log": "cf1", "SinPi": "sinpi:same",
+		"temme_ik": "temme:same", "CF2_ik": "cf2", "CF2_ik_log": "cf2"}
+	rel := checkTailTwin(c, p, d, "bessel_ik", "bessel_ik_log", ikOpaque)
+	checkHeadTwin(c, p, d, "bessel_ik", "bessel_ik_log", ikOpaque, rel)
 }
 
 // checkSeriesTwins: the term generators of the small-argument series. The k-th term of the log-domain generator is the
